@@ -40,8 +40,9 @@ InSupportO(e, o) ==
       [] e.fam = "Pareto"    -> AllFin(o) /\ AllGE(o, e.p[1])                \* >= scale
       [] e.fam = "Frechet"   -> AllFin(o) /\ AllGE(o, e.p[1])                \* >= location
       [] e.fam \in {"Triangular", "Pert"} -> AllFin(o) /\ AllGE(o, e.lo4) /\ AllLE(o, e.hi4)
-      [] e.fam \in UnitCoord -> AllFin(o) /\ AllGE(o, FMOne(e.ft)) /\ AllLE(o, FOne(e.ft))
-      [] e.fam = "Dirichlet" -> AllFin(o) /\ Len(o.out) = e.np /\ AllGE(o, FZero) /\ AllLE(o, FOne(e.ft))
+      \* coordinates of unit-geometry samples: |x| <= 1 up to the few ulp the norm itself is allowed (C12)
+      [] e.fam \in UnitCoord -> AllFin(o) /\ AllGE(o, LSub(FMOne(e.ft), <<0, 0, 4>>)) /\ AllLE(o, LAdd(FOne(e.ft), <<0, 0, 4>>))
+      [] e.fam = "Dirichlet" -> AllFin(o) /\ (o.agg \/ Len(o.out) = e.np) /\ AllGE(o, FZero) /\ AllLE(o, FOne(e.ft))
       [] e.fam = "Zipf"      -> AllFin(o) /\ o.integral /\ AllGE(o, FOne(e.ft)) /\ AllLE(o, e.p[1])
       [] e.fam = "Zeta"      -> AllFin(o) /\ o.integral /\ AllGE(o, FOne(e.ft))
       [] e.fam = "Poisson"   -> AllFin(o) /\ o.integral /\ AllGE(o, FZero)
@@ -56,17 +57,19 @@ InSupportO(e, o) ==
              LLT(o.out[1], <<0, 0, e.np>>) /\ o.wpos                         \* < len, non-zero weight
       [] OTHER -> FALSE
 
-InSupport(e) == InSupportO(e, [out |-> e.out, ocls |-> e.ocls, integral |-> e.integral, wpos |-> e.wpos])
+InSupport(e) == InSupportO(e, [out |-> e.out, ocls |-> e.ocls, integral |-> e.integral, wpos |-> e.wpos, agg |-> FALSE])
 
 \* the rule for one sample() call
 SampleOK(e) == e.res = "Ok" /\ (InSupport(e) \/ DocumentedInfinite(e))
 
 \* aggregated sweep over all 2^24 f32 patterns of one word: every support here is an order
 \* interval (plus integrality / weight flags), so min and max decide
+\* (also used for random-stream blocks: min / max / counters over many calls; a component-wise aggregate, so families
+\* whose support is not the same interval for every component - none here - would need per-component aggregates)
 SweepOK(e) ==
-    LET cl == IF e.fam \in {"WeightedAliasIndex", "WeightedTreeIndex"} THEN "int" ELSE "fin"
-        lo == [out |-> <<e.min>>, ocls |-> <<cl>>, integral |-> TRUE, wpos |-> TRUE]
-        hi == [out |-> <<e.max>>, ocls |-> <<cl>>, integral |-> TRUE, wpos |-> TRUE]
+    LET cl == IF e.fam \in {"WeightedAliasIndex", "WeightedTreeIndex", "Binomial", "Hypergeometric", "Geometric", "StandardGeometric"} THEN "int" ELSE "fin"
+        lo == [out |-> <<e.min>>, ocls |-> <<cl>>, integral |-> TRUE, wpos |-> TRUE, agg |-> TRUE]
+        hi == [out |-> <<e.max>>, ocls |-> <<cl>>, integral |-> TRUE, wpos |-> TRUE, agg |-> TRUE]
         okinf == (e.fam = "Zeta" /\ LLE(e.p[1], ZetaNearOne(e.ft))) \/ (e.fam = "Exp" /\ LEQ(e.p[1], FZero))
     IN  /\ e.panic = 0 /\ e.nan = 0 /\ e.ninf = 0 /\ (e.pinf = 0 \/ okinf)
         /\ e.nonint = 0 /\ e.zerow = 0
